@@ -15,6 +15,14 @@ Case kinds (every case is JSON; Python values outside JSON travel as {"__py__": 
            schema is the dictionary again                    model: Persist.fromDict (toDict s) on the schema as written
   json2  : one column: to_json -> from_json -> modify both columns -> from_json of the same JSON again restores
            the column as written, and it serialises to the same JSON   model: Persist.jsonRoundTrip
+  session: a schema with a history (fifth pass): build -> validate records (directly / through DataFrame.append) -> edit in
+           place (a column's nullable / type / name / aliases / default / statistics / identity; add / remove / replace a column;
+           reverse / re-list the columns), optionally a second round of edits after the first battery -> to_dict / from_dict and
+           to_json / from_json per column -> the same battery of records (conforming, each column missing / null / of every type it
+           ever had / of no type, an excess key, the empty record) to the original, its restored copy, an equal schema edited the
+           same way that never validated, a schema freshly constructed from the current (name, type, nullable), and the copy
+           restored before the second round: all give the same outcome (accept / exception class and the columns it names); the
+           description likewise.  model: Persist.fromDict (toDict s) on the edited schema (edits inside the model's domain)
   init   : keyword arguments -> FlatColumn(**kw), then FlatColumn(**attributes of it) again
            (correspondence only: the constructor's normalisation and its idempotence)
                                                             model: Persist.init, init ∘ rawOf
@@ -809,7 +817,225 @@ def run_hand(case):
     return fails, None, None, None
 
 
-RUNNERS = {"hand": run_hand, "schema": run_schema, "json": run_json, "flat": run_flat, "flat2": run_flat2, "snap": run_snap, "json2": run_json2,
+# --------------------------------------------------------------------------- sessions: a schema with a history (fifth pass)
+
+SESSION_OPS = ("set", "type", "rename", "alias", "add", "remove", "replace", "reverse", "relist")
+SESSION_SET = ["nullable", "aliases", "description", "default", "lowest_value", "highest_value", "null_count", "identity"]
+SESSION_VIA = ("validate", "append", "both", "none")
+TYPE_MEMBERS = BASE + ["_MISSING_TYPE"]
+
+
+def _session_apply(s, e):
+    """one in-place edit of a schema (columns are mutable dataclasses, `columns` a plain list)"""
+    S, OrsoTypes = _orso()
+    op, cols = e["op"], s.columns
+    i = e.get("col")
+    if op in ("set", "type", "rename", "alias", "remove", "replace") and not (i is not None and i < len(cols)):
+        return
+    if op == "set":
+        setattr(cols[i], e["attr"], copy.deepcopy(to_py(e["value"])))
+    elif op == "type":
+        cols[i].type = OrsoTypes[e["to"]]
+    elif op == "rename":
+        cols[i].name = e["to"]
+    elif op == "alias":
+        if isinstance(cols[i].aliases, list):
+            cols[i].aliases.append(e["append"])
+    elif op == "add":
+        cols.append(construct(e["spec"]))
+    elif op == "remove":
+        del cols[i]
+    elif op == "replace":
+        cols[i] = construct(e["spec"])
+    elif op == "reverse":
+        cols.reverse()
+    elif op == "relist":
+        s.columns = list(cols)
+
+
+def _session_use(s, frame, via, recs):
+    """the schema is in use: records are validated against it, directly and / or through DataFrame.append"""
+    for tags in recs:
+        if via in ("validate", "both"):
+            validate_outcome(s, tags)
+        if via in ("append", "both") and frame is not None:
+            try:
+                frame.append({k: c05.POOL[t] for k, t in tags.items()})
+            except Exception:
+                pass
+
+
+def _vread(s):
+    return [(c.name, c.type, c.nullable) for c in s.columns]
+
+
+def run_session(case):
+    """build -> validate some records -> edit in place -> to_dict / from_dict (and to_json / from_json per column) -> the same
+    battery of records to the original, to the restored schema, to an equal schema that never validated (same edits) and to a
+    schema freshly constructed from the current name / type / nullable of the columns: the four give the same outcome."""
+    S, _ = _orso()
+    from orso import DataFrame
+
+    fails = []
+    via = case["via"]
+    with warnings.catch_warnings():
+        warnings.simplefilter("ignore")
+        warm, cold = _build_schema(case), _build_schema(case)
+        frame = None
+        if via in ("append", "both"):
+            try:
+                frame = DataFrame(rows=[], schema=warm)
+            except Exception:
+                frame = None
+        restored = None
+        rw = None
+        typed_edit = False
+        for phase, steps in enumerate((case["steps"], case.get("steps2") or [])):
+            if phase == 1 and not steps:
+                break
+            _session_use(warm, frame, via, case["warm"])
+            for e in steps:
+                typed_edit = typed_edit or e["op"] in ("type", "add", "replace")
+                try:
+                    _session_apply(warm, e)
+                    _session_apply(cold, e)
+                    if restored is not None:
+                        _session_apply(restored, e)
+                except Exception as ex:
+                    raise InfraError("session edit %r failed: %r" % (e, ex))
+                if case.get("rewarm"):
+                    _session_use(warm, frame, via, case["warm"])
+            # the reference: an equal schema with the same edits and no history
+            try:
+                rc = S.RelationSchema.from_dict(cold.to_dict())
+            except Exception:
+                return fails, None, None, None  # the edited declaration itself does not load (e.g. a default of the old type)
+            if _vread(rc) != _vread(cold):
+                # C16.restored_validates_same_any_state: whatever state the columns are in, a dictionary that loads shows
+                # validate the same (name, type, nullable) - also without any history
+                fails.append(("session: the schema restored after in-place edits differs in the name, type or nullability of a column",
+                              {"op": "session", "phase": phase, "original": show([[c.name, enc_ty(c.type), c.nullable] for c in cold.columns]),
+                               "other": show([[c.name, enc_ty(c.type), c.nullable] for c in rc.columns])}))
+                return fails, None, None, None
+            try:
+                rw = S.RelationSchema.from_dict(warm.to_dict())
+            except Exception as ex:
+                cls = type(ex).__name__
+                fails.append(("session: from_dict(to_dict(schema)) raised %s for a schema that had validated records, not for an equal "
+                              "schema that had not" % cls, {"op": "session", "raised": cls, "message": str(ex)[:200]}))
+                return fails, None, None, None
+            try:
+                fresh = S.RelationSchema(name=warm.name, columns=[S.FlatColumn(name=c.name, type=c.type, nullable=c.nullable) for c in warm.columns])
+                if _vread(fresh) != _vread(warm):
+                    fresh = None
+            except Exception:
+                fresh = None
+            try:
+                rj = S.RelationSchema(name=warm.name, columns=[S.FlatColumn.from_json(c.to_json()) for c in warm.columns])
+                if _vread(rj) != _vread(warm):
+                    fails.append(("session: the columns restored through to_json / from_json after in-place edits differ in name, type or nullability",
+                                  {"op": "session", "phase": phase, "original": show([[c.name, enc_ty(c.type), c.nullable] for c in warm.columns]),
+                                   "other": show([[c.name, enc_ty(c.type), c.nullable] for c in rj.columns])}))
+                    rj = None
+            except Exception:
+                rj = None  # JSON does not carry every value (K01)
+            others = [("its restored copy (from_dict(to_dict(schema)))", rw),
+                      ("an equal schema, edited the same way, that never validated a record", cold),
+                      ("a schema freshly constructed from the columns' current name, type and nullability", fresh),
+                      ("the schema whose columns went through to_json / from_json", rj)]
+            if restored is not None:
+                others.append(("the copy restored earlier and edited the same way", restored))
+            seen = set()
+            for tags in case["records"]:
+                v0 = c05.canon(validate_outcome(warm, tags))
+                for what, o in others:
+                    if o is None or what in seen:
+                        continue
+                    v1 = c05.canon(validate_outcome(o, tags))
+                    if v0 != v1:
+                        seen.add(what)
+                        fails.append(("session: a schema that validated records and was then edited in place judges a record differently from "
+                                      + what, {"op": "session", "phase": phase, "record": tags, "original": show(v0), "other": show(v1),
+                                               "columns_now": [[c.name, enc_ty(c.type), c.nullable] for c in warm.columns]}))
+            d0 = describe(warm)
+            for what, o in others[:2] if not typed_edit else others[1:2]:
+                d1 = describe(o)
+                if d0 != d1:
+                    fails.append(("session: a schema that validated records and was then edited in place reports another description than "
+                                  + what, {"op": "session", "phase": phase, "original": d0, "other": d1}))
+            if restored is None:
+                restored = rw
+    from orso.types import OrsoTypes
+
+    def vty(t):
+        if t is OrsoTypes._MISSING_TYPE:
+            return None
+        e = enc_ty(t)
+        return "0" if e == 0 and not isinstance(e, bool) else e
+
+    line = None
+    # the driver's caster models casts of values of the type's own class only: a type assigned in place next to a default of
+    # the old type, or a raw value assigned as default / statistic, is outside its domain
+    in_domain = all(e["op"] != "type" and not (e["op"] == "set" and e["attr"] in ("default", "highest_value", "lowest_value"))
+                    for e in case["steps"])
+    try:
+        encs = [enc_col(c) for c in cold.columns]
+        if not has_other(encs) and not (case.get("steps2") or []):
+            line = "C16 dict " + wire.line(cold.name, list(cold.aliases), cold.primary_key, encs, "fresh")
+    except Exception:
+        line = None
+    impl = [["ok", rw.name, rw.aliases, rw.primary_key, [enc_col(c) for c in rw.columns]], [[c.name, vty(c.type), c.nullable] for c in rw.columns], None]
+    # outside the caster's domain only what validate reads is compared, and only when the model's load succeeds
+    # (C16.restored_validates_same_any_state is conditional on that)
+    return fails, impl, line, "dict" if in_domain else "dict-vcols"
+
+
+def _valid_session(c):
+    if c.get("via") not in SESSION_VIA or not isinstance(c.get("rewarm", False), bool):
+        return False
+    for key in ("warm", "records"):
+        for tags in c[key]:
+            if not isinstance(tags, dict) or not all(isinstance(k, str) and t in c05.POOL for k, t in tags.items()):
+                return False
+    for steps in (c["steps"], c.get("steps2") or []):
+        if not isinstance(steps, list):
+            return False
+        for e in steps:
+            if not isinstance(e, dict) or e.get("op") not in SESSION_OPS:
+                return False
+            if "col" in e and not (isinstance(e["col"], int) and not isinstance(e["col"], bool) and e["col"] >= 0):
+                return False
+            op = e["op"]
+            if op in ("set", "type", "rename", "alias", "remove", "replace") and "col" not in e:
+                return False
+            if op == "set":
+                if e.get("attr") not in SESSION_SET or "value" not in e:
+                    return False
+                v = to_py(e["value"])
+                a = e["attr"]
+                if a == "nullable" and not isinstance(v, bool):
+                    return False
+                if a == "aliases" and not (isinstance(v, list) and all(isinstance(x, str) for x in v)):
+                    return False
+                if a == "identity" and not isinstance(v, str):
+                    return False
+                if a == "description" and not (v is None or isinstance(v, str)):
+                    return False
+                if a == "null_count" and not (v is None or (isinstance(v, int) and not isinstance(v, bool) and v >= 0)):
+                    return False
+            if op == "type" and e.get("to") not in TYPE_MEMBERS:
+                return False
+            if op == "rename" and not isinstance(e.get("to"), str):
+                return False
+            if op == "alias" and not isinstance(e.get("append"), str):
+                return False
+            if op in ("add", "replace"):
+                if not valid_case({"kind": "flat", "col": e.get("spec")}) or e["spec"].get("cls", "FlatColumn") != "FlatColumn":
+                    return False
+    return True
+
+
+RUNNERS = {"session": run_session, "hand": run_hand, "schema": run_schema, "json": run_json, "flat": run_flat, "flat2": run_flat2, "snap": run_snap, "json2": run_json2,
            "init": run_init}
 EDIT_KEYS = {"aliases_append", "pk", "name", "col", "then", "col_alias_append", "drop_last"}
 
@@ -818,10 +1044,12 @@ def valid_case(c):
     try:
         if not isinstance(c, dict) or c.get("kind") not in RUNNERS:
             return False
-        specs = c["cols"] if c["kind"] in ("schema", "snap") else [c["col"]]
+        specs = c["cols"] if c["kind"] in ("schema", "snap", "session") else [c["col"]]
         if c["kind"] == "hand" and c.get("which") not in HAND:
             return False
-        if c["kind"] in ("schema", "snap"):
+        if c["kind"] == "session" and not _valid_session(c):
+            return False
+        if c["kind"] in ("schema", "snap", "session"):
             if not isinstance(c["name"], str) or not isinstance(c["aliases"], list) or not all(isinstance(a, str) for a in c["aliases"]):
                 return False
             if not (c["pk"] is None or isinstance(c["pk"], str)):
@@ -907,7 +1135,7 @@ def evaluate(ctx, cases):
         # the constructor, not a harness fault -- the constructor call is compared with the model instead (kind `init`)
         subs = []
         if isinstance(c, dict) and c.get("kind") in RUNNERS and c.get("kind") != "init":
-            for sp in (c.get("cols") if c["kind"] in ("schema", "snap") else [c.get("col")]) or []:
+            for sp in (c.get("cols") if c["kind"] in ("schema", "snap", "session") else [c.get("col")]) or []:
                 sub = {"kind": "init", "col": {k: v for k, v in sp.items() if k != "cls"}} if isinstance(sp, dict) else None
                 if sub is not None and valid_case(sub):
                     try:
@@ -933,11 +1161,18 @@ def evaluate(ctx, cases):
     open_known = [k for k in ctx.known if k.get("status") == "open"]
     for i, c in enumerate(cases):
         fails, impl, op = runs[i]
-        specs = c["cols"] if c["kind"] in ("schema", "snap") else [c["col"]]
+        specs = c["cols"] if c["kind"] in ("schema", "snap", "session") else [c["col"]]
         ctx.case(c, nontrivial=len(specs) > 0)
         if c["kind"] == "snap":
             for k in c["edit"]:
                 ctx.hit("edit:" + k)
+        if c["kind"] == "session":
+            ctx.hit("session-via:" + c["via"])
+            ctx.hit("session-steps:%d%s" % (len(c["steps"]), "+%d" % len(c["steps2"]) if c.get("steps2") else ""))
+            for e in c["steps"] + (c.get("steps2") or []):
+                ctx.hit("session-edit:" + e["op"] + (":" + e["attr"] if e["op"] == "set" else ""))
+            if op is None and impl is None and not fails:
+                ctx.hit("sequence-skipped:edited-declaration-does-not-load(session)")
         if op is None and impl is None and not fails and c["kind"] in ("snap", "json2"):
             ctx.hit("sequence-skipped:plain-round-trip-differs(%s)" % c["kind"])
         ctx.hit("kind:" + c["kind"])
@@ -962,11 +1197,20 @@ def evaluate(ctx, cases):
         for clause, detail in fails:
             failure = {"clause": clause, "impl": None, "model": None, "detail": detail}
             c_min = c
+            if any(v.get("sig") == clause for v in ctx.violations):
+                ctx.fail(c, clause, detail=detail)  # counted as a duplicate; no second minimisation of the same clause
+                continue
             if not ctx.replaying and not any(match_known(ctx.prop_id, k, c, failure) for k in open_known):
                 def still(c2, clause=clause):
                     return valid_case(c2) and clause in failing_clauses(c2)
 
-                c_min = shrink(c, still, budget=200)
+                start = c
+                if c["kind"] == "session" and isinstance(detail, dict) and "record" in detail:
+                    # the battery down to the record that is judged differently, before the generic minimisation
+                    one = dict(c, records=[detail["record"]])
+                    if still(one):
+                        start = one
+                c_min = shrink(start, still, budget=200)
                 d2 = [f[1] for f in RUNNERS[c_min["kind"]](c_min)[0] if f[0] == clause]
                 detail = d2[0] if d2 else detail
             ctx.fail(c_min, clause, impl=_plain(impl) if c_min is c else None, model=m if c_min is c else None, detail=detail)
@@ -993,6 +1237,13 @@ def evaluate(ctx, cases):
                         ctx.disagree(c, impl[1], m[1], "what validate reads of the restored schema differs from the model's")
                     elif len(impl) > 2 and impl[2] is not None and not wire.same(_plain(impl[2]), m[2]):
                         ctx.disagree(c, impl[2], m[2], "description of the restored schema differs from the model's")
+        elif op == "dict-vcols":
+            if m[0][0] == "err" or len(m) != 3:
+                ctx.hit("session-outside-model-domain:model-load-raises")
+            elif not wire.same(_plain(impl[1]), m[1]):
+                ctx.disagree(c, impl[1], m[1], "what validate reads of the schema restored after in-place edits differs from the model's")
+            else:
+                ctx.hit("session-outside-model-domain:vcols-compared")
         elif op is None and impl is None:
             pass
         elif op is None:
@@ -1290,6 +1541,10 @@ def exhaustive_cases(ctx):
         yield {"kind": "schema", "name": nm, "aliases": [nm, " " + nm, nm], "cols": [sp], "pk": nm, "records": []}
         yield {"kind": "json", "col": sp}
         yield {"kind": "flat", "col": sp}
+    # fifth pass: a schema with a history - validate, edit in place, write / load, validate again (seeded change C16-w7s1:
+    # validate reads a plan cached on the instance and keyed on too little)
+    for c in session_exhaustive(forms, thorough):
+        yield c
 
 
 HAND_NAMES = ["c", "é", "日本 語", " lead", "trail ", "\tx\n", "tab\tname", "x" * 5000, "\U0001F600", "e\u0301", "a.b", "名" * 300, ""]
@@ -1323,6 +1578,8 @@ def random_column(rng, name, forms):
 
 def random_case(ctx, forms):
     rng = ctx.rng
+    if rng.random() < 0.12:
+        return random_session(rng, forms)
     r = rng.random()
     if r < 0.42:
         n = rng.choice([0, 1, 1, 2, 3, 4, 5])
@@ -1367,6 +1624,158 @@ def random_case(ctx, forms):
     sp2 = random_column(rng, sp["name"], [(sp.get("type", "absent"), _base_of(sp.get("type", "absent"), forms))])
     then = {k: sp2[k] for k in MUTABLE if k in sp2 and sp2[k] != sp.get(k)}
     return {"kind": "flat2", "col": sp, "then": then} if then else {"kind": "flat", "col": sp}
+
+
+# --------------------------------------------------------------------------- sessions: generators
+
+
+def _right_tag(base):
+    return c05.RIGHT.get(base, ["int"])[0]
+
+
+def session_battery(layout, before=None):
+    """records for a layout [(name, [base types the column had or has])]: conforming, each column missing / null / a value
+    of each type it ever had / a value of no type, an excess key, the layout before the edits, the empty record"""
+    base_rec = {nm: _right_tag(bs[-1]) for nm, bs in layout}
+    out = [dict(base_rec)]
+    for nm, bs in layout:
+        out.append({k: v for k, v in base_rec.items() if k != nm})
+        out.append(dict(base_rec, **{nm: "none"}))
+        for b in bs[:-1]:
+            out.append(dict(base_rec, **{nm: _right_tag(b)}))
+        out.append(dict(base_rec, **{nm: "set" if bs[-1] is not None else "str"}))
+    out.append(dict(base_rec, zz_extra="int"))
+    if before is not None:
+        out.append({nm: _right_tag(bs[0]) for nm, bs in before})
+    out.append({})
+    seen, uniq = set(), []
+    for r in out:
+        k = tuple(sorted(r.items()))
+        if k not in seen:
+            seen.add(k)
+            uniq.append(r)
+    return uniq
+
+
+def _track(layout, e, base_of_spec):
+    """follow an edit on the layout [(name, [bases])]"""
+    i = e.get("col")
+    op = e["op"]
+    if op in ("set", "type", "rename", "alias", "remove", "replace") and not (i is not None and i < len(layout)):
+        return
+    if op == "type":
+        layout[i] = (layout[i][0], layout[i][1] + [None if e["to"] == "_MISSING_TYPE" else e["to"]])
+    elif op == "rename":
+        layout[i] = (e["to"], layout[i][1])
+    elif op == "add":
+        layout.append((e["spec"]["name"], [base_of_spec(e["spec"])]))
+    elif op == "remove":
+        del layout[i]
+    elif op == "replace":
+        layout[i] = (e["spec"]["name"], layout[i][1] + [base_of_spec(e["spec"])])
+    elif op == "reverse":
+        layout.reverse()
+
+
+def session_case(cols, bases, steps, steps2, via, rewarm, forms, name="t", aliases=(), pk=None):
+    def base_of_spec(sp):
+        return _base_of(sp.get("type", "absent"), forms)
+
+    before = [(sp["name"], [b]) for sp, b in zip(cols, bases)]
+    layout = [(nm, list(bs)) for nm, bs in before]
+    for e in steps:
+        _track(layout, e, base_of_spec)
+    mid = [(nm, list(bs)) for nm, bs in layout]
+    for e in steps2 or []:
+        _track(layout, e, base_of_spec)
+    records = session_battery(mid, before)
+    if steps2:
+        records += [r for r in session_battery(layout) if r not in records]
+    warm = session_battery(before)[:2 + 2 * len(before)]
+    c = {"kind": "session", "name": name, "aliases": list(aliases), "pk": pk, "cols": cols, "via": via, "rewarm": rewarm,
+         "warm": warm, "steps": steps, "records": records}
+    if steps2:
+        c["steps2"] = steps2
+    return c
+
+
+def session_exhaustive(forms, thorough):
+    for fi, (form, base) in enumerate(forms):
+        other_t = "INTEGER" if base != "INTEGER" else "VARCHAR"
+        scripts = [
+            ([{"op": "set", "col": 0, "attr": "nullable", "value": None}], None),
+            ([{"op": "set", "col": 1, "attr": "nullable", "value": False}], None),
+            ([{"op": "type", "col": 0, "to": other_t}], None),
+            ([{"op": "type", "col": 1, "to": "DOUBLE"}], None),
+            ([{"op": "type", "col": 0, "to": "_MISSING_TYPE"}], None),
+            ([{"op": "rename", "col": 0, "to": "s2"}], None),
+            ([{"op": "alias", "col": 0, "append": "later"}, {"op": "set", "col": 1, "attr": "default", "value": 7},
+              {"op": "set", "col": 0, "attr": "description", "value": "edited"}, {"op": "set", "col": 1, "attr": "null_count", "value": 0}], None),
+            ([{"op": "add", "spec": {"name": "n", "identity": "id-n", "type": ["member", "BOOLEAN"], "nullable": False}}], None),
+            ([{"op": "remove", "col": 1}], None),
+            ([{"op": "replace", "col": 1, "spec": {"name": "o", "identity": "id-o", "type": ["member", "VARCHAR"], "nullable": False}}], None),
+            ([{"op": "reverse"}], None),
+            ([{"op": "relist"}, {"op": "set", "col": 1, "attr": "nullable", "value": False}], None),
+            ([{"op": "set", "col": 0, "attr": "nullable", "value": None}, {"op": "type", "col": 1, "to": "DOUBLE"}], None),
+            ([{"op": "set", "col": 1, "attr": "nullable", "value": False}],
+             [{"op": "set", "col": 1, "attr": "nullable", "value": True}, {"op": "type", "col": 1, "to": "VARCHAR"}]),
+            ([{"op": "set", "col": 1, "attr": "identity", "value": "other"}, {"op": "set", "col": 1, "attr": "nullable", "value": False}], None),
+        ]
+        for ei, (steps, steps2) in enumerate(scripts):
+            if not thorough and (fi + ei) % 2 and ei not in (0, 2):
+                continue
+            t0 = [[], ["aliases", "description"], ["statistics"], ["non-nullable"]][(fi + ei) % 4]
+            sp = column_spec("s", form, base, t0, pick=fi)
+            steps = [dict(e) for e in steps]
+            for e in steps:
+                if e["op"] == "set" and e["attr"] == "nullable" and e["value"] is None:
+                    e["value"] = "non-nullable" in t0  # the other value
+            other = column_spec("o", ["member", "INTEGER"], "INTEGER", ["aliases"], pick=fi)
+            via = ("validate", "append", "both", "validate", "append", "validate", "none")[(fi + ei) % 7]
+            yield session_case([sp, other], [base, "INTEGER"], steps, steps2, via, ei == 12, forms, pk="s" if ei % 3 == 0 else None)
+
+
+def random_session(rng, forms):
+    n = rng.choice([1, 2, 2, 3, 4])
+    names = rng.sample([x for x in NAMES if x != "zz_extra"], n)
+    cols = [random_column(rng, nm, forms) for nm in names]
+    bases = [_base_of(sp.get("type", "absent"), forms) for sp in cols]
+    spare = [x for x in ["n1", "n2", "é2", "new col", "N"] if x not in names]
+
+    def one(k):
+        op = rng.choice(["set", "set", "set", "type", "type", "rename", "alias", "add", "remove", "replace", "reverse", "relist"])
+        i = rng.randrange(max(1, k))
+        if op == "set":
+            a = rng.choice(["nullable", "nullable", "nullable", "aliases", "description", "default", "null_count", "identity", "highest_value"])
+            v = {"nullable": rng.random() < 0.5, "aliases": [rng.choice(NAMES)], "description": rng.choice([None, "", "d"]),
+                 "default": rng.choice([None, 0, 7, "x"]), "null_count": rng.choice([None, 0, 3]), "identity": rng.choice(["", "same", "id-x"]),
+                 "highest_value": rng.choice([None, 5, "z"])}[a]
+            return {"op": "set", "col": i, "attr": a, "value": v}
+        if op == "type":
+            return {"op": "type", "col": i, "to": rng.choice(TYPE_MEMBERS)}
+        if op == "rename":
+            return {"op": "rename", "col": i, "to": spare.pop() if spare else "r%d" % rng.randrange(1000)}
+        if op == "alias":
+            return {"op": "alias", "col": i, "append": rng.choice(NAMES)}
+        if op in ("add", "replace"):
+            nm = spare.pop() if (spare and (op == "add" or rng.random() < 0.5)) else None
+            sp = random_column(rng, nm if nm is not None else (names[i] if i < len(names) else "n9"), forms)
+            sp.pop("default", None)
+            if op == "replace" and rng.random() < 0.5 and i < len(cols):
+                sp["identity"] = cols[i].get("identity", "id-" + names[i])  # the same identity and name, other attributes
+                sp["name"] = names[i]
+            return {"op": op, "col": i, "spec": sp} if op == "replace" else {"op": op, "spec": sp}
+        if op == "remove":
+            return {"op": "remove", "col": i}
+        return {"op": op}
+
+    steps = [one(n) for _ in range(rng.choice([1, 1, 2, 3, 4]))]
+    steps2 = [one(n) for _ in range(rng.choice([1, 2]))] if rng.random() < 0.3 else None
+    # no two columns of one name (a record has one value per name; what validate then says is C05's business)
+    c = session_case(cols, bases, steps, steps2, rng.choice(["validate", "validate", "append", "both", "none"]), rng.random() < 0.4, forms,
+                     name=rng.choice(["t", "", "schema é"]), aliases=[rng.choice(NAMES) for _ in range(rng.choice([0, 1]))],
+                     pk=rng.choice([None, names[0], ""]))
+    return c
 
 
 def _run_batched(ctx, it, size=1500):
@@ -1452,13 +1861,17 @@ def run(ctx):
 
 
 def _construct_all(c):
-    specs = c["cols"] if c["kind"] in ("schema", "snap") else [c["col"]]
+    specs = c["cols"] if c["kind"] in ("schema", "snap", "session") else [c["col"]]
     for sp in specs:
         construct(sp)
     if c["kind"] in ("flat2", "json2"):
         construct(dict(c["col"], **c["then"]))  # the donor of the assigned attributes
     if c["kind"] == "snap" and c["edit"].get("then"):
         construct(dict(specs[c["edit"]["col"]], **c["edit"]["then"]))
+    if c["kind"] == "session":
+        for e in c["steps"] + (c.get("steps2") or []):
+            if e["op"] in ("add", "replace"):
+                construct(e["spec"])
 
 
 def _constructible(c, ctx):
